@@ -15,7 +15,7 @@ struct mstate { int mode; uint8_t *failkey; size_t lfk; long calls; };
 extern void vf_merge_union(void *, const uint8_t *, size_t, const uint8_t *, size_t, const uint8_t *, size_t, uint8_t **, size_t *);
 extern int iter_next_op(struct obj *o);
 
-struct saux { struct mstate st; struct mtbl_threadpool *tp; char tmpdir[300]; int mk0; };
+struct saux { struct mstate st; struct mtbl_threadpool *tp; char tmpdir[300]; char realdir[320]; int mk0; };
 
 static int count_dir(const char *d)
 {
@@ -29,7 +29,7 @@ void destroy_sorter(struct obj *o)
 {
 	struct saux *a = o->aux;
 	struct mtbl_sorter *s = o->p; if (s) mtbl_sorter_destroy(&s);
-	if (a) { if (a->tp) mtbl_threadpool_destroy(&a->tp); rmdir(a->tmpdir); free(a->st.failkey); free(a); }
+	if (a) { if (a->tp) mtbl_threadpool_destroy(&a->tp); if (a->realdir[0]) { unlink(a->tmpdir); rmdir(a->realdir); } else rmdir(a->tmpdir); free(a->st.failkey); free(a); }
 }
 
 int ops_sorter(char **args, int na)
@@ -51,13 +51,21 @@ int ops_sorter(char **args, int na)
 		else if (mg && !strcmp(mg, "lcp")) { a->st.mode = 2; mtbl_sorter_options_set_merge_func(so, vf_merge_union, &a->st); }
 		else if (mg && !strncmp(mg, "fail:", 5)) { a->st.mode = 1; if (unhex(mg + 5, &a->st.failkey, &a->st.lfk)) return -1; mtbl_sorter_options_set_merge_func(so, vf_merge_union, &a->st); }
 		snprintf(a->tmpdir, sizeof a->tmpdir, "%s/sort%d", vf_tmpdir, o->id);
-		mkdir(a->tmpdir, 0700);
+		/* tdir=plain: an existing directory; symlink: the configured path is a symbolic link to a directory;
+		   late: the directory is created only after the option has been set and the sorter initialised */
+		const char *td = kv(kvs, n, "tdir"); int late = td && !strcmp(td, "late");
+		if (td && !strcmp(td, "symlink")) {
+			snprintf(a->realdir, sizeof a->realdir, "%s/sortreal%d", vf_tmpdir, o->id);
+			mkdir(a->realdir, 0700);
+			if (symlink(a->realdir, a->tmpdir)) return -1;
+		} else if (!late) mkdir(a->tmpdir, 0700);
 		mtbl_sorter_options_set_temp_dir(so, a->tmpdir);
 		long pool = kvnum(kvs, n, "pool", -1);
 		if (pool >= 0) { a->tp = mtbl_threadpool_init(pool); mtbl_sorter_options_set_threadpool(so, a->tp); }
 		a->mk0 = vf_mkstemp_n;
 		o->p = mtbl_sorter_init(so);
 		mtbl_sorter_options_destroy(&so);
+		if (late) mkdir(a->tmpdir, 0700);
 		puts("ok"); return 0;
 	}
 	if (!strcmp(op, "s.add") && na == 4) {
